@@ -186,8 +186,12 @@ def run(ctx):
         rets = [x for x in own_nodes(ir_.node) if isinstance(x, ast.Return) and x.value is not None]
         okr = False
         for x in rets:
-            parts = x.value.values if isinstance(x.value, ast.BoolOp) and isinstance(x.value.op, ast.And) else [x.value]
-            at = {canon_atom(v_) for v_ in parts}
+            if isinstance(x.value, ast.Constant) and not x.value.value:
+                continue          # a guard clause that answers False
+            from sa.util import expand_names as _en14
+            xv = _en14(ir_, x.value)
+            parts = xv.values if isinstance(xv, ast.BoolOp) and isinstance(xv.op, ast.And) else ([] if isinstance(xv, ast.Constant) else [xv])
+            at = {canon_atom(v_) for v_ in parts} | {canon_atom(a_, pol_) for a_, pol_ in guards_at(ir_, x)}
             okr = ("==", "'running'", "self.status", True) in at and any(t[0] == "is" and "self._event_loop_task" in (t[1], t[2]) and "None" in (t[1], t[2]) and t[3] is False for t in at) \
                 and ("truthy", "self._event_loop_task.done()", "", False) in at
         c.ob("R7", okr, ir_, "is-running-needs-live-loop", "is_running = status running and a consumer task that exists and has not finished" if okr else
